@@ -26,3 +26,32 @@ package graphql
 //@   ensures typeis(value, "float64") && f64(value) >= -2147483648.0 && f64(value) <= 2147483647.0 ==> result != nil
 //@   ensures typeis(value, "float32") && f32(value) >= f32(-2147483648) && f32(value) <= f32(2147483520) ==> result != nil
 //@   ensures typeis(value, "bool") ==> result != nil && (boolval(value) ==> intval(result) == 1) && (!boolval(value) ==> intval(result) == 0)
+
+// ---- response paths (C18, C20) ------------------------------------------------
+
+//@ func ResponsePath.WithKey
+//@   props C18 C20 C04
+//@   assigns nothing
+//@   nopanic
+//@   ensures result != nil && fresh(result) && result.Prev == p && result.Key == key
+
+//@ func ResponsePath.AsArray
+//@   props C18 C20 C04
+//@   assigns nothing
+//@   nopanic
+//@   ensures p == nil ==> result == nil
+//@   ensures p != nil ==> len(result) >= 1 && result[len(result)-1] == p.Key
+//@   ensures p != nil ==> fresh(result)
+
+// ---- leaf completion (C04) ----------------------------------------------------
+
+//@ func isNullish
+//@   props C04
+//@   functional
+//@   assigns nothing
+//@   ensures src == nil ==> result
+
+//@ func completeLeafValue
+//@   props C04
+//@   requires returnType != nil
+//@   ensures result == nil || !isNullish_0(result)
